@@ -19,6 +19,18 @@ CLAIMED = {
             NOTE_COMMON + "Size-1 broadcasting inside an axis and the label bookkeeping of calculate (T04.1) are covered by the C05 correspondence, not by a theorem.",
             "DESIGN.md 7/C04"),
     # id: (technique, level text, level note, design ref)
+    "C06": ("Lean 4: traced Tensor.__apply__ diagrams compute t / t^-T / t^-T X t^-1 / t X t^T (simp+ring); the four actions are group actions for every n (Mathlib matrices); powers; correspondence of apply/compose/pow/inverse with the exact model + group laws on the implementation",
+            "Kernel-checked: what each recorded apply-diagram computes (points, hyperplanes, quadrics, dual quadrics, 3-D lines, t**3), and that these four actions satisfy (s t)x = s(t x), 1x = x, t^-1(t x) = x for all invertible matrices in every dimension, t^(k+1) = t t^k, (t^-1)^k = (t^k)^-1. Tied to the code by the regenerated diagrams and a differential run over all object kinds (incl. polytopes with cached line/plane), collections of transformations, exponents -3..5 and chains.",
+            NOTE_COMMON + "LAPACK inverse is trusted and compared with the exact inverse on every sample; polytope caches are checked by correspondence only.",
+            "DESIGN.md 7/C06"),
+    "C07": ("Lean 4: incidence / quadric membership / tangency invariance for every n (Mathlib), inverse-free cofactor identities for join/meet in dimension 3 and 4 (ring), brackets scale by det (cross ratio); correspondence t*join = join(t*..) on all 12 scenarios, contains/is_tangent/crossratio before vs after, polytope vertices",
+            "Kernel-checked: (t^-T l).(t p) = l.p, (tp)^T(t^-T X t^-1)(tp) = p^T X p, tangency dual; (ta)x(tb) = cof(t)(axb), cof(t)^T t = det t, det4 multiplicative, traced 3-point join = ±det4, all 3x3 brackets scale by det t so cross ratios are unchanged. Tied by differential runs with generic (non-isometric) matrices.",
+            NOTE_COMMON,
+            "DESIGN.md 7/C07"),
+    "C08": ("Lean 4: constructor models (translation, scaling, rotation 2-D/3-D Rodrigues as written in the code, Householder reflection, from_points) meet their definitions (field_simp/ring/linear_combination with sympy-found, kernel-checked certificates; Real.cos_add); correspondence of every constructor with the exact model matrix on Pythagorean data",
+            "Kernel-checked: translation adds v and fixes infinity; rotation(a) is ccw and additive (over R via cos_add/sin_add); rotation(a,axis): R^T R = 1, det R = 1, R a = a, tr R = 1+2c for unit axes and c^2+s^2 = 1; reflection = classical mirror image (2-D, 3-D); from_points maps the frame (every n). Tied by a differential run: exact model matrices vs the implementation (axes in all octants, axis points of any homogeneous scale, oblique mirrors, non-affine frames, from_points_and_conics).",
+            NOTE_COMMON + "cos/sin/atan2/norm trusted (few ulp); from_points_and_conics is decided by correspondence only.",
+            "DESIGN.md 7/C08"),
     "C05": ("Lean 4 proofs about a hand-written model of TensorDiagram/LeviCivita/KroneckerDelta (induction over arbitrary op sequences; sign of permutations for all n via Mathlib) + correspondence (differential, exact integers) of model vs implementation",
             "Machine-checked theorems (Lean 4 kernel) about the executable model of add_node/add_edge/calculate and of the epsilon/delta constructions, for every diagram / every n; the model is tied to /repo's working tree on every run by an in-process differential run on random and exhaustively enumerated edge sequences.",
             "Trusted: Lean kernel + propext/Classical.choice/Quot.sound, numpy.einsum semantics, CPython set order for small ints, the harness and driver parser. delta(n,p) is a complete kernel-evaluated table for p<=n<=4 except p=n=4.",
